@@ -460,6 +460,8 @@ pub trait Ind: Send + Sync {
     fn ser(&self) -> Result<Vec<u8>, String>;
     fn ser_size(&self) -> Result<u64, String>;
     fn de(&self, bytes: &[u8]) -> Result<Box<dyn Ind>, String>;
+    /// `Deserialize::deserialize_in_place` into this (used) instance
+    fn de_in_place(&mut self, bytes: &[u8]) -> Result<(), String>;
     fn ser_json(&self) -> Result<String, String>;
     fn de_json(&self, s: &str) -> Result<Box<dyn Ind>, String>;
 }
@@ -555,6 +557,11 @@ macro_rules! impl_ind {
                     }
                 }
                 Ok(Box::new(x))
+            }
+            fn de_in_place(&mut self, bytes: &[u8]) -> Result<(), String> {
+                use bincode::Options;
+                let mut de = bincode::Deserializer::from_slice(bytes, bincode::options().with_fixint_encoding().allow_trailing_bytes());
+                serde::Deserialize::deserialize_in_place(&mut de, self).map_err(|e| e.to_string())
             }
             fn ser_json(&self) -> Result<String, String> {
                 serde_json::to_string(self).map_err(|e| e.to_string())
@@ -1167,6 +1174,19 @@ impl Inst {
         self.kept.push(original);
         self.record(|| Op::CloneSwap, || Res::Unit);
         Ok(())
+    }
+    /// restore a checkpoint *into this instance* (serde's in-place path), whatever state it is in
+    pub fn restore_in_place(&mut self, bytes: &[u8]) -> Result<(), Panicked> {
+        self.calls += 1;
+        let me = self.ind.as_mut();
+        match guarded(|| me.de_in_place(bytes)) {
+            Ok(Ok(())) => Ok(()),
+            Ok(Err(e)) => Err(Panicked(format!("deserialize_in_place: {}", e))),
+            Err(p) => {
+                self.panics += 1;
+                Err(p)
+            }
+        }
     }
     /// `Clone::clone_from(self, src)` at the client boundary
     pub fn assign_from(&mut self, src: &Inst) -> Result<(), Panicked> {
